@@ -73,6 +73,14 @@ func main() {
 		one("prune-mem-paged+", "thorough", func() hist.Model { return newPruneModel("mem", pts5, 2, 3, 154, 300) }),
 		one("prune-rs-paged+", "thorough", func() hist.Model { return newPruneModel("rs", pts4, 2, 3, 154, 0) }),
 	}
+	for i, a := range os.Args {
+		if (a == "-replay" || a == "--replay") && i+1 < len(os.Args) {
+			// handled here so that the scratch directory is removed before exiting
+			code := hist.ReplayFile("C17", scopes, os.Args[i+1])
+			cleanupScratch()
+			os.Exit(code)
+		}
+	}
 	hist.Main(&hist.Config{
 		Property: "C17",
 		Scopes:   scopes,
